@@ -3,6 +3,22 @@
 import json, subprocess, sys
 
 CLAIMED = {
+ "C05": ("dispatch-table agreement (token -> operator / evaluator arm), layering of productions over the call graph, CFG ordering of the SELECT pipeline, truth-table evaluation of the boolean comparator",
+         "Static necessary conditions of single-table SELECT meaning: pipeline stages run filter->project->aggregate->sort->offset->limit and feed each other; each comparison token is evaluated with its own Go operator for ints and strings (sides normalised); two-character operators agree with the token table; OR/AND dispatch to ||/&& with both operands always evaluated; precedence layering OrCondition>AndCondition>Predicate with no upward call; the sort comparator is 'less' per type and negated exactly for DESC of the current key; LIMIT/OFFSET flags guard their own values; quoted text never becomes a keyword; projected rows get fresh storage.",
+         "Equality of results with a reference evaluator over all contents is not decided; operand sides are recognised through the evaluator's lhs/rhs naming.", "DESIGN.md §4 C05"),
+ "C06": ("dispatch-table and value-agreement rules on the join arms; must-assign path rule on the join-type variable",
+         "Static necessary conditions of join semantics: LEFT/RIGHT/INNER keywords map to their constants, the join type is assigned in every iteration, every storable type has an executor arm; in each arm left.Merge(right) matches the header order, padding rows have the width of the other side and the correct position, unmatched rows are appended on the !hasMatch edge of the preserved side's loop; unqualified duplicate names yield ErrFieldAmbiguous, qualified lookups compare column and table id, alias-or-name table ids; merged rows use fresh storage; AND/OR evaluate both operands so ambiguity is always reported.",
+         "Multiset equality of results is not decided.", "DESIGN.md §4 C06"),
+ "C07": ("list-production rule, data-dependence of the rounding operand, format-string analysis of the group key",
+         "Static necessary conditions of true aggregates: GROUP BY accepts commas; the group key is built from quoted, delimited fragments and the AVG counter key includes the column identity; the COUNT seed is reset per column and counts non-NULL values; empty input yields int64 zeros; no rounded value re-enters the running average (recorded known finding D7b: the suite pins the step-wise rounded results).",
+         "Numerical values of COUNT/AVG are not decided beyond these clauses.", "DESIGN.md §4 C07"),
+ "C09": ("progress analysis of parser loops and production recursion (token consumption as ranking function) + panic-source enumeration with dominating-guard discharge over the front-end call cone",
+         "For every path: each parser loop consumes a token per iteration and no cycle of production calls is free of consumption (termination in O(n) productions); every type assertion in the cone is checked, no explicit panic exists, every index/slice is dominated by the guard that makes it safe, the token cursor is only advanced under its guard; the vendored scanner's refill never fills the sentinel slot.",
+         "A discipline slightly stronger than 'cannot panic' (an unchecked assertion that is safe for reasons outside the analysis is reported). Vendored scanner internals other than the refill bound are trusted.", "DESIGN.md §4 C09"),
+ "C10": ("list-production separator rule, end-of-input dominance, totality/injectivity of the keyword table evaluated with go/constant, keyword/clause dispatch tables, production layering",
+         "Static necessary conditions of faithful parsing: every list production matches its separator between elements; a successful Parse is dominated by the EOF test; every reserved-word constant has a distinct, upper-case, non-empty spelling and init reads exactly that range; two-character operators agree with the table; statement keywords dispatch to their own production; ASC/DESC, LIMIT/OFFSET, LEFT/RIGHT/INNER map to themselves; AND binds tighter than OR by layering; quoted identifiers and literals never pass the keyword lookup.",
+         "Equality of the whole tree for all renderings is not decided (needs generation and execution).", "DESIGN.md §4 C10"),
+
  "C08": ("dominating-guard rules, interval arithmetic over go/constant, wire-grammar symmetry, frozen dispatch tables",
          "Static necessary conditions of exact read-back and refusal: Validate dominates every typed encode of the same value; the INT arm accepts exactly [MinInt32, MaxInt32] (interval computed from operators and constants); every store of external bytes into a cell is dominated by the row-size check (len <= maxValueSize) with the length co-assigned; row and schema codecs are symmetric per type; literal tokens convert base-10 / verbatim; Decode always fills a fresh map (NULL columns are skipped, not cleared); SQL types map to the same storage types along parser, CREATE TABLE and catalog.",
          "Does not decide byte-exactness through the vendored scanner's escapes, nor equality over all values; 32-bit int width of strconv.Atoi is only compiled (GOARCH=386) in the thorough tier.", "DESIGN.md §4 C08"),
